@@ -321,6 +321,13 @@ class Interp:
                         raise OutOfFragment('dereference of an iterator at position %d of a sequence of length %d at %s' % (v[2], len(v[1]), fn.loc(n)))
                     return ('ptr', v[1][v[2]])
                 return v
+        if callee and callee.startswith('std::numeric_limits<') and callee.endswith(('::max', '::min', '::lowest')) and not n.get('args'):
+            T = callee[len('std::numeric_limits<'):callee.rindex('>')].strip()
+            rng = {'int': (-2 ** 31, 2 ** 31 - 1), 'short': (-2 ** 15, 2 ** 15 - 1), 'signed char': (-128, 127), 'char': (-128, 127), 'long': (-2 ** 63, 2 ** 63 - 1), 'long long': (-2 ** 63, 2 ** 63 - 1),
+                   'unsigned int': (0, 2 ** 32 - 1), 'unsigned short': (0, 2 ** 16 - 1), 'unsigned char': (0, 255), 'unsigned long': (0, 2 ** 64 - 1), 'unsigned long long': (0, 2 ** 64 - 1)}.get(T)
+            if rng is None:
+                raise OutOfFragment('numeric_limits of %s at %s' % (T, fn.loc(n)))
+            return rng[1] if callee.endswith('::max') else rng[0]
         if callee in ('std::max', 'std::min') and len(n['args']) == 2:
             a, b = (self.eval(fn, S[x], env) for x in n['args'])
             return max(a, b) if callee == 'std::max' else min(a, b)
